@@ -250,7 +250,8 @@ def rand_value(t, rnd, n=None):
 def gen_cases(rnd, tier):
     cases = []
     # 1. every scalar type x boundary lengths x forms
-    lens = LENS_Q + LENS_BOUNDARY + (LENS_BIG if tier == "thorough" else [])
+    # a few mid-size counts as well: bulk code paths tend to switch on element counts like 1024 or 4096
+    lens = LENS_Q + LENS_BOUNDARY + [1023, 1024, 4097] + (LENS_BIG if tier == "thorough" else [])
     for kind in valrig.SCALARS:
         for n in lens:
             reps = 3 if n <= 17 else 1
